@@ -278,10 +278,13 @@ func (s *SMS) PostSetup(w http.ResponseWriter, r *http.Request) error {
 		return s.Core.Responder.Respond(w, r, http.StatusOK, PageSMSSetup, data)
 	}
 
-	authboss.PutSession(w, SessionSMSNumber, number)
+	// Only remember the number once a code has actually been sent to it,
+	// otherwise a rate-limited attempt pairs the new number with the code
+	// that was sent to the previous one.
 	if err = s.SendCodeToUser(w, r, user.GetPID(), number); err != nil {
 		return err
 	}
+	authboss.PutSession(w, SessionSMSNumber, number)
 
 	ro := authboss.RedirectOptions{
 		Code:         http.StatusTemporaryRedirect,
